@@ -1,6 +1,10 @@
 use core::fmt::Debug;
 use std::cmp::PartialEq;
+#[cfg(not(feature = "verif"))]
 use std::collections::HashSet;
+#[cfg(feature = "verif")]
+#[allow(unused_imports)]
+use crate::verif::{HashSet, MapNew};
 use std::convert::TryFrom;
 use std::fmt::Display;
 use std::hash::Hash;
